@@ -1248,6 +1248,9 @@ class Interp(object):
         except (IndexError, KeyError, TypeError) as exc:
             if isinstance(exc, InterpRaise):
                 raise
+            if isinstance(exc, TypeError) and type(base).__module__.startswith('ndverif') and not isinstance(base, Arr):
+                # a stand-in object of the analysis that lacks item assignment: a gap of the model, not a behaviour
+                raise AnalysisError('item assignment on %s is not modelled [at %s]' % (type(base).__name__, self.where()))
             raise InterpRaise(str(exc), type(exc).__name__)
 
     on_store = None
